@@ -14,7 +14,7 @@ from vmon.util import mk_rng, guarded, Raised
 ID = "C19"
 RULE = (
     "seeded samples (normal, gamma, lognormal, t5, logistic, beta; 300-20000 points; scale 1e-6..1e6; location up to 1e6 "
-    "standard deviations from zero) x both estimators x fractions 0.05-0.99; moments judged when < 1e-4 of the estimator's "
+    "standard deviations from zero) x both estimators (one KDE in five with a bandwidth cross-validated on a sub-sample) x fractions 0.05-0.99; moments judged when < 1e-4 of the estimator's "
     "own probability lies outside its integration range; non-trivial = skewed or shifted sample; distinct = distinct (sample, estimator)"
 )
 ASSUMPTIONS = [
